@@ -7,8 +7,9 @@
 //     which fields a version carries is MEASURED (single-field sensitivity of the written
 //     bytes), not taken from a table; the measured sets are additionally compared with the
 //     committed spec/udp_gates.json so that a field dropped on BOTH sides is seen.
-//  2. pool histories: CreatePack / fill / ClosePack / CreatePack; on pointer-identical
-//     reuse every field must be blank.
+//  2. pool histories: CreatePack(type, random version) / fill a random SUBSET of the fields
+//     (all, one, all but one, each with probability q) / ClosePack / CreatePack at another
+//     version; on pointer-identical reuse every field must be blank.
 //  3. password masking: unique marker values under the key "password" must not occur in
 //     any string of the pack after Process().
 //
@@ -470,8 +471,15 @@ func poolSection(c *vlib.Ctx) {
 		released[k.Name] = map[uintptr]udp.UdpPack{}
 	}
 	objID := map[uintptr]int{}
+	// what the previous use of a released object was: the version it was acquired at and how
+	// it was filled (evidence only: which kinds of previous use the judged re-acquisitions had)
+	type use struct {
+		ver  int32
+		mode string
+	}
+	lastUse := map[uintptr]use{}
 	done := 0
-	c.Cases("pool", c.N(len(pooled)*64, len(pooled)*4000), func(i int, r *vlib.Rand) {
+	c.Cases("pool", c.N(len(pooled)*256, len(pooled)*8000), func(i int, r *vlib.Rand) {
 		k := pooled[int(vlib.Mix(uint64(i))%uint64(len(pooled)))]
 		rel := released[k.Name]
 		var held []udp.UdpPack
@@ -507,6 +515,19 @@ func poolSection(c *vlib.Ctx) {
 				delete(rel, addr)
 				c.Count("pool_reuse_"+k.Name, 1)
 				c.Count("pool_reuse_events", 1)
+				if u, ok := lastUse[addr]; ok {
+					c.Count("pool_reuse_after_fill_"+u.mode, 1)
+					if u.mode != "none" && u.mode != "all" {
+						c.Count("pool_reuse_after_partial_fill_"+k.Name, 1)
+					}
+					if u.ver != ver {
+						c.Count("pool_reuse_at_other_version", 1)
+					}
+					if family(u.ver) != family(ver) {
+						c.Count("pool_reuse_at_other_family", 1)
+					}
+					c.SetAdd("pool_version_transitions", family(u.ver)+">"+family(ver))
+				}
 				e := elemOf(p)
 				if p.GetVersion() != ver {
 					c.Fail(k.Name+".Ver:pool-residue", fmt.Sprintf("CreatePack(%d, %d) returned a pooled %s with version %d", k.Code, ver, k.Name, p.GetVersion()),
@@ -524,9 +545,23 @@ func poolSection(c *vlib.Ctx) {
 					}
 				}
 			}
+			lastUse[addr] = use{ver, "none"}
 			if r.Intn(10) != 0 {
-				k.fillResidue(r, p)
-				ops = append(ops, fmt.Sprintf("fill-all(obj%d)", id(p)))
+				mode, mask, names := k.fillPlan(r)
+				k.fillResidue(r, p, mask)
+				lastUse[addr] = use{ver, mode}
+				if mode == "all" {
+					ops = append(ops, fmt.Sprintf("fill-all(obj%d)", id(p)))
+				} else {
+					ops = append(ops, fmt.Sprintf("fill(obj%d: %s)", id(p), strings.Join(names, ",")))
+				}
+				c.Count("pool_fills", 1)
+				c.Count("pool_fills_"+mode, 1)
+				c.Count("pool_fields_filled", int64(len(names)))
+				c.Count("pool_fields_left_unfilled", int64(len(k.Fields)-len(names)))
+				if mode == "single" {
+					c.SetAdd("pool_single_field_fills", k.Name+"."+names[0])
+				}
 				if r.Intn(3) == 0 {
 					if wf := wellFormed[k.Name]; wf != nil {
 						elemOf(p).FieldByName("Data").SetString(wf(r))
@@ -561,7 +596,10 @@ func poolSection(c *vlib.Ctx) {
 		min := int64((100 + c.NShards - 1) / c.NShards)
 		for _, k := range pooled {
 			c.Floor("pool_reuse_"+k.Name, min, c.Counter("pool_reuse_"+k.Name))
+			// re-acquisitions whose previous use had populated only SOME of the fields
+			c.Floor("pool_reuse_after_partial_fill_"+k.Name, min, c.Counter("pool_reuse_after_partial_fill_"+k.Name))
 		}
+		c.Floor("pool_reuse_at_other_version", min, c.Counter("pool_reuse_at_other_version"))
 	}
 }
 
